@@ -1,5 +1,210 @@
+(* C05/Properties.v — the property theorems only.  Each is closed by [exact] of a lemma from
+   Proofs.v and followed by Print Assumptions.
+
+   [step c v f e] is the literal transcription of pkg/ppp/fsm.go (Model.v part 1); v = Repaired is
+   fsm.go with fixes/C05_fsm_rfc1661_cells.patch, v = Defective is fsm.go as it stands.
+   [rfc1661] is the table of RFC 1661 section 4.1 transcribed independently (Model.v part 2).
+   All theorems hold for every configuration c (maxConf, maxTerm), every value of the automaton's
+   variables (hence every restart-counter class and identifier class) and every event. *)
 From OV Require Import Common.Base C05.Model C05.Proofs.
 Open Scope Z_scope.
-Example C05_placeholder : st init = Initial.
-Proof. reflexivity. Qed.
-Print Assumptions C05_placeholder.
+
+(* ---- conformance to the table -------------------------------------------------------------- *)
+
+(* Every step agrees with the RFC cell: same next state, same action list (irc/zrc included), for
+   every state x event x counter value x identifier; discarded packets (malformed Configure-Request,
+   stale-identifier Ack/Nak/Reject, short Echo-Request, Protocol-Reject outside Opened) change
+   nothing; "-" cells change nothing (an unknown code is still Code-Rejected). *)
+Theorem C05_table :
+  forall c f e, conformsb f e (step c Repaired f e) = true.
+Proof. exact table_repaired. Qed.
+Print Assumptions C05_table.
+
+(* Today's code agrees with the table everywhere except in the eleven cells of [bad_cells] ... *)
+Theorem C05_table_current_code_partial :
+  forall c f e,
+  conformsb f e (step c Defective f e) = true \/
+  exists re, classify f e = Some re /\ is_bad_cell (st f) re = true.
+Proof. exact table_defective_off_bad. Qed.
+Print Assumptions C05_table_current_code_partial.
+
+(* ... and in each of those cells it does not: a reachable state and an event of that class whose
+   step departs from the RFC cell. *)
+Theorem C05_table_refuted :
+  forall cell, In cell bad_cells ->
+  exists es e, let f := run default_cfg Defective init es in
+    st f = fst cell /\ classify f e = Some (snd cell) /\
+    conformsb f e (step default_cfg Defective f e) = false.
+Proof. exact table_defective_refuted. Qed.
+Print Assumptions C05_table_refuted.
+
+(* The restart counter is exactly what the irc/zrc actions of the step say (both variants). *)
+Theorem C05_restart_counter :
+  forall c v f e, restart (step c v f e) = counter_after c f e (outs (step c v f e)).
+Proof. exact counter_ok. Qed.
+Print Assumptions C05_restart_counter.
+
+(* Replies carry the identifier of the packet answered; requests and Code-Rejects the next
+   identifier modulo 256; a Code-Reject names the rejected packet (both variants). *)
+Theorem C05_reply_ids :
+  forall c v f e, ids_okb f e (outs (step c v f e)) = true.
+Proof. exact ids_ok. Qed.
+Print Assumptions C05_reply_ids.
+
+(* ---- stale acknowledgements ---------------------------------------------------------------- *)
+
+(* Configure-Ack / -Nak / -Reject whose identifier is not that of the last Configure-Request sent:
+   no state change, no variable change, nothing sent (both variants) ... *)
+Theorem C05_stale_ignored :
+  forall c v f code id k dlen,
+  is_ack_code code = true -> id <> lastReq f ->
+  step c v f (EInput code id k dlen) = clear_out f.
+Proof. exact stale_ignored. Qed.
+Print Assumptions C05_stale_ignored.
+
+(* ... where "the last Configure-Request sent" is read off the observable trace. *)
+Theorem C05_lastReq_is_last_request_sent :
+  forall c v es,
+  match last_scr None (trace c v init es) with
+  | Some i => lastReq (run c v init es) = i
+  | None => lastReq (run c v init es) = 0
+  end.
+Proof. exact lastReq_is_last_scr. Qed.
+Print Assumptions C05_lastReq_is_last_request_sent.
+
+Example C05_stale_ignored_nonvacuous :
+  st (step default_cfg Repaired (run default_cfg Repaired init [EOpen; EUp]) (EInput 2 1 CGood 0)) = AckRcvd /\
+  step default_cfg Repaired (run default_cfg Repaired init [EOpen; EUp]) (EInput 2 2 CGood 0)
+    = clear_out (run default_cfg Repaired init [EOpen; EUp]).
+Proof. exact current_ack_not_ignored_nonvac. Qed.
+Print Assumptions C05_stale_ignored_nonvacuous.
+
+(* ---- up / down notifications ---------------------------------------------------------------- *)
+
+(* For every event sequence from Initial the This-Layer-Up / This-Layer-Down notifications
+   strictly alternate, starting with up (both variants) ... *)
+Theorem C05_updown_alternate :
+  forall c v es, alternates false (trace c v init es) = true.
+Proof. exact alternates_init. Qed.
+Print Assumptions C05_updown_alternate.
+
+(* ... and an up is outstanding exactly while the automaton is in Opened. *)
+Theorem C05_up_iff_opened :
+  forall c v es, up_after false (trace c v init es) = is_opened (st (run c v init es)).
+Proof. intros c v es. exact (up_iff_opened_from c v es init). Qed.
+Print Assumptions C05_up_iff_opened.
+
+(* A This-Layer-Up is reported only when (ours) a Configure-Ack carrying the identifier of our
+   latest Configure-Request has arrived after that request was sent and (theirs) our latest answer
+   to the peer's latest well-formed Configure-Request was a Configure-Ack with its identifier —
+   with neither a link Down nor a Terminate-Request from the peer in between (a Terminate-Ack
+   voids "ours").  The monitor [both_acked] computes this from the observable trace alone. *)
+Theorem C05_up_needs_both_acks :
+  forall c es, both_acked true (trace c Repaired init es) = true.
+Proof. exact both_acked_strict_repaired. Qed.
+Print Assumptions C05_up_needs_both_acks.
+
+(* Today's code violates the Terminate clause (Terminate-Request in Ack-Rcvd is not honoured) ... *)
+Theorem C05_up_needs_both_acks_refuted :
+  exists es, both_acked true (trace default_cfg Defective init es) = false.
+Proof. exact both_acked_strict_refuted. Qed.
+Print Assumptions C05_up_needs_both_acks_refuted.
+
+(* ... but satisfies the statement without it (acknowledgements voided by Down and by newer
+   requests only). *)
+Theorem C05_up_needs_both_acks_weak :
+  forall c v es, both_acked false (trace c v init es) = true.
+Proof. exact both_acked_weak_any. Qed.
+Print Assumptions C05_up_needs_both_acks_weak.
+
+Example C05_updown_nonvacuous :
+  st (run default_cfg Repaired init happy) = Opened /\
+  count_acts (fun a => match a with Tlu => true | _ => false end) (trace default_cfg Repaired init happy) = 1%nat /\
+  alternates false (trace default_cfg Repaired init (happy ++ [RTRe; ETimeout; RCRp; EInput 2 2 CGood 0; EDown])) = true /\
+  count_acts (fun a => match a with Tlu | Tld => true | _ => false end)
+     (trace default_cfg Repaired init (happy ++ [RTRe; ETimeout; RCRp; EInput 2 2 CGood 0; EDown])) = 4%nat.
+Proof. exact happy_opens. Qed.
+Print Assumptions C05_updown_nonvacuous.
+
+(* ---- bounded retransmission ------------------------------------------------------------------ *)
+
+(* In every reachable waiting state (Closing, Stopping, Req-Sent, Ack-Rcvd, Ack-Sent) the restart
+   counter n is at most Max-Terminate resp. Max-Configure, and n+1 consecutive timeouts with no other
+   input end the attempt: exactly n retransmissions, exactly one This-Layer-Finished, final state
+   Closed or Stopped (both variants). *)
+Theorem C05_bounded :
+  forall c v es,
+  0 <= maxConf c -> 0 <= maxTerm c ->
+  let f := run c v init es in
+  waiting (st f) = true ->
+  exists n : nat,
+    Z.of_nat n = restart f /\
+    Z.of_nat n <= (match st f with Closing | Stopping => maxTerm c | _ => maxConf c end) /\
+    let ts := repeat ETimeout (S n) in
+    (st (run c v f ts) = Closed \/ st (run c v f ts) = Stopped) /\
+    count_acts is_retrans (trace c v f ts) = n /\
+    count_acts is_tlf (trace c v f ts) = 1%nat.
+Proof. exact bounded. Qed.
+Print Assumptions C05_bounded.
+
+Example C05_bounded_nonvacuous :
+  let f := run default_cfg Repaired init [EOpen; EUp] in
+  waiting (st f) = true /\ restart f = 10 /\
+  st (run default_cfg Repaired f (repeat ETimeout 11)) = Stopped /\
+  count_acts is_retrans (trace default_cfg Repaired f (repeat ETimeout 11)) = 10%nat.
+Proof. exact bounded_nonvac. Qed.
+Print Assumptions C05_bounded_nonvacuous.
+
+(* The timeouts of C05_bounded do come: in every reachable waiting state the restart timer is
+   pending. *)
+Theorem C05_timer_armed :
+  forall c es,
+  waiting (st (run c Repaired init es)) = true -> armed (run c Repaired init es) = true.
+Proof. exact timer_armed. Qed.
+Print Assumptions C05_timer_armed.
+
+(* Today: Terminate-Request in Opened enters Stopping with no timer — the termination never ends. *)
+Theorem C05_timer_armed_refuted :
+  exists es, let f := run default_cfg Defective init es in
+    waiting (st f) = true /\ armed f = false.
+Proof. exact timer_armed_refuted. Qed.
+Print Assumptions C05_timer_armed_refuted.
+
+Example C05_timer_armed_nonvacuous :
+  let f := run default_cfg Repaired init [EOpen; EUp; RCRp; RCA1; RTRe] in
+  st f = Stopping /\ armed f = true /\ st (step default_cfg Repaired f ETimeout) = Stopped.
+Proof. exact timer_nonvac. Qed.
+Print Assumptions C05_timer_armed_nonvacuous.
+
+(* Every negotiation begun from Starting, Closed, Stopped or Opened starts with the full budget of
+   Max-Configure retransmissions (histories in which the timer event happens only while the timer
+   is pending). *)
+Theorem C05_fresh_negotiation_budget :
+  forall c es e,
+  let f := run c Repaired init es in
+  timer_ok c Repaired init es = true ->
+  starts_negotiation (st f) = true ->
+  existsb is_scr (outs (step c Repaired f e)) = true ->
+  restart (step c Repaired f e) = maxConf c /\ negotiating (st (step c Repaired f e)) = true.
+Proof. exact fresh_negotiation. Qed.
+Print Assumptions C05_fresh_negotiation_budget.
+
+(* Today (missing irc on Configure-Ack in Ack-Sent): a renegotiation from Opened can start with the
+   counter at zero and is abandoned at the first timeout without a single retransmission. *)
+Theorem C05_fresh_negotiation_budget_refuted :
+  exists c es e, let f := run c Defective init es in
+    0 < maxConf c /\ timer_ok c Defective init (es ++ [e; ETimeout]) = true /\ st f = Opened /\
+    existsb is_scr (outs (step c Defective f e)) = true /\
+    restart (step c Defective f e) = 0 /\
+    st (run c Defective f [e; ETimeout]) = Stopped /\
+    count_acts is_retrans (trace c Defective (step c Defective f e) [ETimeout]) = 0%nat.
+Proof. exact fresh_negotiation_refuted. Qed.
+Print Assumptions C05_fresh_negotiation_budget_refuted.
+
+Example C05_fresh_negotiation_nonvacuous :
+  let f := run (mkCfg 2 1) Repaired init [EOpen; EUp; RCRp; ETimeout; ETimeout; EInput 2 3 CGood 0] in
+  timer_ok (mkCfg 2 1) Repaired init [EOpen; EUp; RCRp; ETimeout; ETimeout; EInput 2 3 CGood 0] = true /\
+  st f = Opened /\ existsb is_scr (outs (step (mkCfg 2 1) Repaired f RCRp)) = true /\
+  restart (step (mkCfg 2 1) Repaired f RCRp) = 2.
+Proof. exact fresh_nonvac. Qed.
+Print Assumptions C05_fresh_negotiation_nonvacuous.
